@@ -234,6 +234,9 @@ func genSchema(r *rand.Rand, rich bool, restrictM bool, idx int) *mSchema {
 
 var precisions = []string{"ns", "us", "ms", "s"}
 
+// set by the end-to-end family per environment (the family is sequential)
+var e2eWindowLoUS, e2eWindowSpanUS int64
+
 func mulFits(raw int64, k int64) bool {
 	return raw <= math.MaxInt64/k && raw >= math.MinInt64/k
 }
@@ -274,8 +277,13 @@ func genPoint(r *rand.Rand, s *mSchema, precision string, rich bool, rid int64, 
 		p.HasTS = true
 		var us int64
 		if e2e {
-			// storage-level: realistic range 1960..2100 so that hour directories are sane
+			// storage-level: realistic range 1960..2100 so that hour directories are sane;
+			// in "narrow" environments all points of a run fall into a window of a few hours,
+			// so that one flush holds many rows of the same hour partition in arrival order
 			us = -315619200_000000 + r.Int64N(4417977600_000000)
+			if e2eWindowSpanUS > 0 {
+				us = e2eWindowLoUS + r.Int64N(e2eWindowSpanUS)
+			}
 		} else {
 			switch r.IntN(6) {
 			case 0:
